@@ -102,6 +102,10 @@ func (c Config) Options() *opt.Options {
 		o.CompactionTableSize = 1 << 20
 		o.DisableSeeksCompaction = false
 		o.IteratorSamplingRate = 1
+	case "roomy":
+		// default options except a 256 KiB write buffer and 64 KiB tables: nothing rotates in the small concurrent
+		// drivers either way, but each execution no longer allocates (and zeroes) 4 MiB buffers
+		o = &opt.Options{DisableSeeksCompaction: true, WriteBuffer: 256 << 10, CompactionTableSize: 64 << 10}
 	case "default":
 		o = &opt.Options{DisableSeeksCompaction: true}
 	case "defaultnopool":
